@@ -234,7 +234,7 @@ func (c *NoiseGrpcConn) ClientHandshake(_ context.Context, _ string,
 
 	log.Tracef("Client handshake completed")
 
-	return c, NewAuthInfo(), nil
+	return c.newConn(), NewAuthInfo(), nil
 }
 
 // ServerHandshake implements the server part of the noise connection handshake.
@@ -297,7 +297,26 @@ func (c *NoiseGrpcConn) ServerHandshake(conn net.Conn) (net.Conn,
 	log.Debugf("Finished server handshake, client_key=%x",
 		c.noise.remoteStatic.SerializeCompressed())
 
-	return c, NewAuthInfo(), nil
+	return c.newConn(), NewAuthInfo(), nil
+}
+
+// newConn returns the net.Conn for the connection whose handshake has just
+// been completed on c. It is an object of its own that owns the transport and
+// the noise machine of this one connection. The credentials object c is used
+// for every connection of a session in turn; if it handed out itself, whoever
+// still held the previous connection would, after that connection was closed,
+// read from and write to the next one (or, after a failed handshake, to a noise
+// machine that has no cipher state yet).
+//
+// NOTE: the caller must hold proxyConnMtx.
+func (c *NoiseGrpcConn) newConn() *NoiseGrpcConn {
+	return &NoiseGrpcConn{
+		ProxyConn:           c.ProxyConn,
+		connData:            c.connData,
+		noise:               c.noise,
+		minHandshakeVersion: c.minHandshakeVersion,
+		maxHandshakeVersion: c.maxHandshakeVersion,
+	}
 }
 
 // Info returns general information about the protocol that's being used for
